@@ -22,7 +22,7 @@ MODELLED = ["memory safety is checked dynamically on the executable code (guard 
 ASSUMPTIONS = ["page-granular detection: an out-of-bounds READ is seen only when it crosses into the guard page "
                "(buffers are placed flush against it; alignment offsets leave up to 63 bytes of slack on one side)",
                "host supports SSE2..AVX-512"]
-TRUSTED_EXTRA = ["harness/c/driver.c guard allocator + trampoline.S (validated by its own selfchk cases: deliberately "
+TRUSTED_EXTRA = ["tools/gen_coq.py gen_asm_frames: the reading of the .S files (function boundaries, push/pop, sub/and rsp, rsp-based operands with their size keyword, destination = first operand) behind gen/GenAsmFrames.v", "harness/c/driver.c guard allocator + trampoline.S (validated by its own selfchk cases: deliberately "
                  "broken kernels must be reported)"]
 
 KNOWN_KEY = "asm_hash_many_overread"
